@@ -70,16 +70,12 @@ func (d *c01PluginDriver) NodeAdd(n *corev1.Node)           { d.pl.OnNodeAdd(n) 
 func (d *c01PluginDriver) NodeUpdate(old, n *corev1.Node)   { d.pl.OnNodeUpdate(old, n) }
 func (d *c01PluginDriver) NodeDelete(n *corev1.Node)        { d.pl.OnNodeDelete(n) }
 
-func TestVerifC01PluginHistory(t *testing.T) {
-	rec := vk.New(t, "C01", "pluginHistory")
-	// One suite (fake clients, framework handle) for the whole test; every case gets a fresh Plugin from it. The
-	// plugin's informers are never started: events reach it only through the handler calls made by the driver.
-	var scaleMin bool
-	var sysMax, defMax corev1.ResourceList
+// c01PluginMaker: one suite (fake clients, framework handle) for the whole test; every case gets a fresh Plugin from it.
+// The plugin's informers are never started: events reach it only through the handler calls made by the driver.
+func c01PluginMaker(t *testing.T) func(scaleMin bool, sysMax, defMax corev1.ResourceList) c01Driver {
 	suit := newPluginTestSuit(t, nil, func(args *config.ElasticQuotaArgs) {})
 	c01Quiet()
-	mk := func(sm bool, sys, def corev1.ResourceList) c01Driver {
-		scaleMin, sysMax, defMax = sm, sys, def
+	return func(scaleMin bool, sysMax, defMax corev1.ResourceList) c01Driver {
 		args := suit.elasticQuotaArgs.DeepCopy()
 		args.EnableMinQuotaScale = scaleMin
 		args.SystemQuotaGroupMax = sysMax
@@ -91,5 +87,16 @@ func TestVerifC01PluginHistory(t *testing.T) {
 		}
 		return &c01PluginDriver{p.(*Plugin)}
 	}
+}
+
+func TestVerifC01PluginHistory(t *testing.T) {
+	rec := vk.New(t, "C01", "pluginHistory")
+	mk := c01PluginMaker(t)
 	rapid.Check(t, func(t *rapid.T) { c01RunHistory(t, rec, mk) })
+}
+
+func TestVerifC01PluginParked(t *testing.T) {
+	rec := vk.New(t, "C01", "pluginParkedReserve")
+	mk := c01PluginMaker(t)
+	rapid.Check(t, func(t *rapid.T) { c01RunParked(t, rec, mk) })
 }
